@@ -5,6 +5,11 @@ VERIF = os.path.dirname(os.path.dirname(os.path.abspath(__file__)))
 
 # id -> (category, technique, level text, level note, design ref)
 CHECKS = {
+ "C03": ("exploration",
+         "runtime monitoring: crash monitor (panic capture per call, worker-abort attribution through a case journal), logical step-budget monitor (verif_hooks tick counter), allocation-peak monitor, over generated hostile inputs",
+         "Every load call (load_from_string / load_fragment / load from a temp file; strict on/off; a2ml_spec none/valid/invalid) on hostile inputs (random bytes and text, every kind of truncation, token deletion/duplication/swap of grammar-generated documents, token soups, byte mutations, hostile A2ML, nesting probes up to depth 65536) runs under a panic monitor, a logical step budget proportional to the input size (non-termination becomes a deterministic event) and an allocation-peak monitor; process aborts (stack overflow) are attributed to the journalled case and confirmed in isolation. 60 000 (quick) / 3 000 000 (thorough) inputs.",
+         "trusts: the tick sites of the verif_hooks feature cover every loop that advances over input (parser token cursor, tokenizers, IF_DATA interpreter); inputs <= 64 KiB except nesting probes",
+         "DESIGN.md section 3 C03"),
  "C13": ("exploration",
          "runtime monitoring: model-based conformance monitor (vector-of-names reference model) over exhaustive state-space exploration, bounded sequence enumeration and long random histories, plus panic monitor",
          "Every operation of ItemList is executed on the real list and followed by a complete observation through the public API that is compared with a vector-of-names model. The abstract state space over a 4-name alphabet (65 states, every operation with every argument from every state) is explored completely, all operation sequences up to length 3 (quick) / 4 (thorough) are enumerated literally, and 1000-step random histories run on lists of up to 500 real Measurements. Held on the executions observed; not a proof for larger alphabets.",
